@@ -28,7 +28,7 @@
    antisymmetric); "aeq": x == y iff all components are equal (cell "partial": some but not all
    equal -- the case that separates logic_all from logic_any); "amat": to_Matrix = wedge matrix,
    from_Matrix o to_Matrix = id where offered, vee/wedge, ad.                               *)
-EXTENDS ExpLog
+EXTENDS ExpLog, FiniteSets
 
 (* ============================ group side ============================================== *)
 (* exact exp(s*x), s in {1, -1}, of the descriptor xe in the group of X.  MRP: the code's exp
@@ -54,17 +54,17 @@ HSugar == { <<1,0,0,0>>, <<1,1,0,0>>, <<2,1,0,-1>>, <<1,1,1,1>>, <<0,1,0,0>>, <<
             <<64,1,2,2>>, <<63,1,0,0>>, <<2000,-1,1,1>>, <<1,0,0,20>>, <<-1,6,6,7>> }
 HScrew == { <<1,1,0,0>>, <<2,1,0,-1>>, <<0,1,0,0>>, <<-1,1,1,0>>, <<1,1,1,1>>, <<5,1,2,2>> }
 HScrew23 == { <<1,1,0,0>>, <<2,1,0,-1>>, <<0,0,1,0>>, <<-1,1,1,0>> }
-CSug  == { <<1,0,1>>, <<0,1,1>>, <<-1,0,1>>, <<3,4,5>>, <<-4,-3,5>>, <<5,-12,13>>, <<63,16,65>>, <<399,-40,401>> }
+CSug  == { <<1,0,1>>, <<0,1,1>>, <<-1,0,1>>, <<3,4,5>>, <<-4,-3,5>>, <<5,-12,13>>, <<63,16,65>>, <<63,-16,65>> }
 XeSet(k) ==
   CASE k \in 1..4 -> { [k |-> "so3", h |-> h] : h \in HSugar }
-    [] k \in 5..6 -> { [k |-> "se3", h |-> h, alpha |-> al, y |-> y] : h \in HScrew, al \in {1, -2}, y \in {<<0,-2,1>>, <<1,1,3>>} }
+    [] k \in 5..6 -> { [k |-> "se3", h |-> h, alpha |-> al, y |-> y] : h \in HScrew, al \in (IF Thorough THEN {1, -2, 0} ELSE {-2}), y \in {<<0,-2,1>>, <<1,1,3>>} }
                      \cup { [k |-> "se3t", rho |-> r] : r \in {<<0,0,0>>, <<3,1,-1>>} }
     [] k \in 7..8 -> { [k |-> "se23", h |-> h, a1 |-> 1, y1 |-> y1, a2 |-> -2, y2 |-> y2] :
                           h \in HScrew23, y1 \in {<<1,0,0>>, <<0,-2,1>>}, y2 \in {<<0,0,0>>, <<1,1,3>>} }
                      \cup { [k |-> "se23t", rho |-> r, rho2 |-> <<1,1,1>>] : r \in {<<3,1,-1>>} }
                      \cup { [k |-> "se23t", rho |-> <<0,0,0>>, rho2 |-> <<0,0,0>>] }
     [] k = 9      -> { [k |-> "so2", cs |-> c] : c \in CSel \cup CSmallSigned }
-    [] k = 10     -> { [k |-> "se2", cs |-> c, u |-> u] : c \in CSug, u \in {<<1,0>>, <<-2,1>>, <<3,-1>>} }
+    [] k = 10     -> { [k |-> "se2", cs |-> c, u |-> u] : c \in CSug, u \in (IF Thorough THEN {<<1,0>>, <<-2,1>>, <<3,-1>>} ELSE {<<-2,1>>, <<3,-1>>}) }
                      \cup { [k |-> "se2t", rho |-> r] : r \in {<<0,0>>, <<3,-1>>} }
     [] k = 11     -> { [k |-> "rn", x |-> x, pd |-> d] : x \in R3Small, d \in {1, 2} }
     [] k = 12     -> { [k |-> "rn", x |-> x, pd |-> d] : x \in R2Small, d \in {1, 2} }
@@ -79,23 +79,25 @@ XeSet(k) ==
                           h \in {<<1,1,0,0>>, <<-1,1,1,0>>}, h2 \in {<<2,1,0,-1>>, <<1,0,0,2>>, <<1,0,0,0>>} }
 
 (* seed elements X per family *)
+RepOfK(k) == CASE k = 1 -> "quat" [] k = 2 -> "mrp" [] k = 3 -> "dcm" [] k = 4 -> "euler"
 SFam(k) ==
-  CASE k \in 1..4 -> IF Thorough THEN { X \in Families[k] : X.q \in QSel \cup QL1 } ELSE { X \in Families[k] : X.q \in QSel }
+  CASE k \in 1..4 -> SO3Set(RepOfK(k), IF Thorough THEN QSel \cup QL1 ELSE QSel)
     [] k \in 5..6 -> Families[k]
     [] k \in 7..8 -> IF Thorough THEN { X \in Families[k] : X.q \in QSel8 /\ X.p \in TSel4 /\ X.v \in TTri } ELSE TriFamilies[k]
     [] OTHER      -> Families[k]
 
-RECURSIVE NPar(_), NAlg(_), MatDim(_), NFac(_)
 NRot(rep) == CASE rep = "quat" -> 4 [] rep = "mrp" -> 3 [] rep = "dcm" -> 9 [] rep = "euler" -> 3
-RECURSIVE SumOver(_, _, _)
-SumOver(F(_), fs, k) == IF k = 0 THEN 0 ELSE F(fs[k]) + SumOver(F, fs, k - 1)
+RECURSIVE NPar(_), NParUpTo(_, _), NAlg(_), NAlgUpTo(_, _), MatDim(_), MatDimUpTo(_, _)
+NParUpTo(fs, k)   == IF k = 0 THEN 0 ELSE NPar(fs[k]) + NParUpTo(fs, k - 1)
+NAlgUpTo(fs, k)   == IF k = 0 THEN 0 ELSE NAlg(fs[k]) + NAlgUpTo(fs, k - 1)
+MatDimUpTo(fs, k) == IF k = 0 THEN 0 ELSE MatDim(fs[k]) + MatDimUpTo(fs, k - 1)
 NPar(X) == CASE X.g = "SO3" -> NRot(X.rep) [] X.g = "SE3" -> 3 + NRot(X.rep) [] X.g = "SE23" -> 6 + NRot(X.rep)
              [] X.g = "SO2" -> 1 [] X.g = "SE2" -> 3 [] X.g = "Rn" -> Len(X.x)
-             [] X.g = "Prod" -> SumOver(NPar, X.fs, Len(X.fs))
+             [] X.g = "Prod" -> NParUpTo(X.fs, Len(X.fs))
 NAlg(X) == CASE X.g = "SO3" -> 3 [] X.g = "SE3" -> 6 [] X.g = "SE23" -> 9 [] X.g = "SO2" -> 1 [] X.g = "SE2" -> 3
-             [] X.g = "Rn" -> Len(X.x) [] X.g = "Prod" -> SumOver(NAlg, X.fs, Len(X.fs))
+             [] X.g = "Rn" -> Len(X.x) [] X.g = "Prod" -> NAlgUpTo(X.fs, Len(X.fs))
 MatDim(X) == CASE X.g = "SO3" -> 3 [] X.g = "SE3" -> 4 [] X.g = "SE23" -> 5 [] X.g = "SO2" -> 2 [] X.g = "SE2" -> 3
-             [] X.g = "Rn" -> Len(X.x) + 1 [] X.g = "Prod" -> SumOver(MatDim, X.fs, Len(X.fs))
+             [] X.g = "Rn" -> Len(X.x) + 1 [] X.g = "Prod" -> MatDimUpTo(X.fs, Len(X.fs))
 NFac(X) == IF X.g = "Prod" THEN Len(X.fs) ELSE 1
 
 (* cell of a pm vector: the branch of exp that the descriptor exercises *)
@@ -108,13 +110,27 @@ XeCell(xe) ==
     [] xe.k = "sum" -> IF \A i \in 1..Len(xe.parts) : XeCell(xe.parts[i]) = "zero" THEN "zero" ELSE "mixed"
 
 AllValid(S) == \A Y \in S : Valid(Y)
-PmVec(X, k, xe) ==
-    LET E == ExpAt(X, xe, 1)  En == ExpAt(X, xe, -1)
-        XE == Norm(Prod(X, E))  XEn == Norm(Prod(X, En))  Xi == Norm(Inv(X))
-    IN [op |-> "pm", fam |-> k, a |-> <<X>>, xe |-> xe, E |-> E, En |-> En, cell |-> XeCell(xe),
-        ok |-> AllValid({E, En, XE, XEn, Xi, Norm(Inv(XE)), Norm(Prod(En, Xi))}),
-        mat |-> Mat(X), plus |-> RMMul(Mat(X), Mat(E)), minus |-> RMMul(Mat(X), Mat(En)),
-        pinv |-> RMMul(Mat(En), Mat(Xi))]
+(* MRP at EXACTLY pi: +v and -v are the same rotation and both MRPs have norm 1, so which of the two the code's exp
+   returns is representation detail (SO3Mrp.exp keeps the sign of x, SE23.exp goes through the rotation matrix and
+   loses it).  Which products then sit on the excluded 360-degree singularity depends on that choice: a vector is
+   kept only if it avoids the singularity for either choice (found by the thorough tier: X = identity, x a half turn,
+   (X + x) - x through SE23Mrp is NaN).                                                                              *)
+RECURSIVE PiOK(_, _, _)
+PiOK(X, E, En) ==
+  CASE X.g = "Prod" -> \A i \in 1..Len(X.fs) : PiOK(X.fs[i], E.fs[i], En.fs[i])
+    [] X.g \in {"SO3", "SE3", "SE23"} /\ X.rep = "mrp" /\ E.q[1] = 0 ->
+         /\ nOf(X.q) # 0
+         /\ MrpOk(QMul(X.q, QNeg(E.q))) /\ MrpOk(QMul(X.q, QNeg(En.q))) /\ MrpOk(QMul(QNeg(En.q), QConj(X.q)))
+    [] OTHER -> TRUE
+(* (operands of an action are re-evaluated at every reference: bind every intermediate once with \E .. \in {..}) *)
+PmStep(X, k, xe) ==
+    \E E \in {ExpAt(X, xe, 1)}, En \in {ExpAt(X, xe, -1)}, Xi \in {Norm(Inv(X))} :
+    \E XE \in {Norm(Prod(X, E))}, XEn \in {Norm(Prod(X, En))} :
+    /\ AllValid({E, En, XE, XEn, Xi, Norm(Inv(XE)), Norm(Prod(En, Xi))})
+    /\ PiOK(X, E, En)
+    /\ \E MX \in {Mat(X)}, ME \in {Mat(E)}, MEn \in {Mat(En)} :
+       tv' = [op |-> "pm", fam |-> k, a |-> <<X>>, xe |-> xe, E |-> E, En |-> En, cell |-> XeCell(xe),
+              mat |-> MX, plus |-> RMMul(MX, ME), minus |-> RMMul(MX, MEn), pinv |-> RMMul(MEn, Mat(Xi))]
 
 (* --- == on group elements: exact criterion "all parameters equal" per parameterisation --- *)
 RotParEq(rep, p, q) == IF rep \in {"quat", "mrp"} THEN QRed(p) = QRed(q) ELSE SameRot(p, q)
@@ -138,7 +154,7 @@ AnyBlockEq(X, Y) ==        \* SOME parameter block / coordinate agrees (coarse; 
     [] X.g = "Prod" -> \E i \in 1..Len(X.fs) : AnyBlockEq(X.fs[i], Y.fs[i])
 HasRot(X) == X.g \in {"SO3", "SE3", "SE23"}
 Anti(X) == [X EXCEPT !.q = QNeg(X.q)]                                         \* the same rotation, other quaternion sign
-EqPartners(X, k) == (IF k \in 1..4 THEN SFam(k) ELSE IF k \in 5..8 THEN TriFamilies[k] ELSE SFam(k))
+EqPartners(X, k) == (IF k \in 1..4 \/ k >= 13 \/ Thorough THEN SFam(k) ELSE TriFamilies[k])
                     \cup {X} \cup (IF HasRot(X) THEN {Anti(X)} ELSE {})
 EqVec(X, Y, k) == LET e == ParEq(X, Y) IN
     [op |-> "geq", fam |-> k, a |-> <<X, Y>>, exp |-> e,
@@ -165,9 +181,9 @@ ShapeVec(X, k, side, m, row) == LET n == IF side = "group" THEN NPar(X) ELSE NAl
 
 (* --- direct-product structure --- *)
 RECURSIVE OffsetsOf(_, _)
-OffsetsOf(fs, k) == IF k = 0 THEN <<>> ELSE OffsetsOf(fs, k - 1) \o << SumOver(NPar, fs, k - 1) >>
+OffsetsOf(fs, k) == IF k = 0 THEN <<>> ELSE OffsetsOf(fs, k - 1) \o << NParUpTo(fs, k - 1) >>
 RECURSIVE AOffsetsOf(_, _)
-AOffsetsOf(fs, k) == IF k = 0 THEN <<>> ELSE AOffsetsOf(fs, k - 1) \o << SumOver(NAlg, fs, k - 1) >>
+AOffsetsOf(fs, k) == IF k = 0 THEN <<>> ELSE AOffsetsOf(fs, k - 1) \o << NAlgUpTo(fs, k - 1) >>
 PStructVec(X, k) == [op |-> "pstruct", fam |-> k, a |-> <<X>>, n |-> NPar(X), nalg |-> NAlg(X),
                      offs |-> OffsetsOf(X.fs, Len(X.fs)), aoffs |-> AOffsetsOf(X.fs, Len(X.fs)),
                      mats |-> Fv([i \in 1..Len(X.fs) |-> Mat(X.fs[i])]), mat |-> Mat(X),
@@ -189,9 +205,7 @@ AElems(sig) ==
   IF Len(sig) = 1 THEN AlgSet(sig[1])
   ELSE LET base == { FlatParts(p, Len(p)) : p \in { pp \in SumSet : Fv(SigOfParts(pp)) = sig } }
        IN base \cup { VNeg(b) : b \in base } \cup { ZeroV(SigDim(sig, Len(sig))), Unit(SigDim(sig, Len(sig)), 2) }
-AShort(sig) ==      \* partners y, z : a few elements only
-  LET S == AElems(sig) n == SigDim(sig, Len(sig)) IN
-  { x \in S : x = ZeroV(n) } \cup { CHOOSE x \in S : x # ZeroV(n) } \cup { CHOOSE x \in S : x # ZeroV(n) /\ x # (CHOOSE y \in S : y # ZeroV(n)) }
+YSet(x) == LET n == Len(x) IN { ZeroV(n), Unit(n, 1), VAdd(VScale(-2, x), Unit(n, n)) }       \* partners y, z of x
 WedgeSig(sig, x) == IF Len(sig) = 1 THEN Wedge(K0(sig[1]), x)
                     ELSE FM(BlockDiag([i \in 1..Len(sig) |-> Wedge(K0(sig[i]), PartOf(x, sig, i))]))
 adSig(sig, x)    == IF Len(sig) = 1 THEN adm(K0(sig[1]), x)
@@ -226,39 +240,42 @@ InitS == /\ dummy = 0
 NextS == UNCHANGED dummy /\
   \/ /\ tv.op = "seedX"
      /\ LET X == tv.a[1] k == tv.fam IN
-        \/ \E xe \in XeSet(k) : \E V \in {PmVec(X, k, xe)} : V.ok /\ tv' = V
+        \/ \E xe \in XeSet(k) : PmStep(X, k, xe)
         \/ tv' = UnVec(X, k)
         \/ \E Y \in EqPartners(X, k) : Valid(Y) /\ tv' = EqVec(X, Y, k)
   \/ /\ tv.op = "seedF"
      /\ LET X == tv.a[1] k == tv.fam IN
-        \/ \E Y \in SFam(k) : Valid(Y) /\ Y # X /\ tv' = GAddVec(X, Y, k)
+        \/ \E Y \in {CHOOSE Z \in SFam(k) : Valid(Z) /\ Z # X /\ Valid(Norm(Prod(X, Z))) /\ Valid(Norm(Prod(X, Norm(Inv(Z)))))} : tv' = GAddVec(X, Y, k)
         \/ \E side \in {"group", "alg"}, d \in {-1, 0, 1}, row \in BOOLEAN :
               LET n == IF side = "group" THEN NPar(X) ELSE NAlg(X) IN n + d >= 1 /\ tv' = ShapeVec(X, k, side, n + d, row)
         \/ k >= 13 /\ \E Y \in SFam(k) : Valid(Y) /\ tv' = PStructVec(Y, k)
   \/ /\ tv.op = "seedx"
      /\ LET sig == tv.sig x == tv.x IN
-        \/ \E y \in AShort(sig), z \in AShort(sig), s \in Scalars, t \in {2} : tv' = AvsVec(sig, x, y, z, s, t)
-        \/ Len(sig) = 1 /\ \E y \in AlgSet(sig[1]), z \in AShort(sig), s \in {-2, 3} : tv' = AbrVec(sig, x, y, z, s)
+        \/ \E y \in YSet(x), z \in YSet(x), s \in Scalars, t \in {2} : tv' = AvsVec(sig, x, y, z, s, t)
+        \/ Len(sig) = 1 /\ \E y \in AlgSet(sig[1]), z \in {CHOOSE w \in AlgSet(sig[1]) : NormSq(w) # 0}, s \in {-2} : tv' = AbrVec(sig, x, y, z, s)
         \/ \E y \in AeqPartners(x) : tv' = AeqVec(sig, x, y)
         \/ tv' = AmatVec(sig, x)
 SpecS == InitS /\ [][NextS]_<<tv, dummy>>
 
 (* ============================ what TLC proves ========================================= *)
+(* 32-bit integers: products of two already-multiplied rational matrices only while the denominators are small;
+   the parameter-level laws (quaternion products, Norm) are checked on every state                            *)
+SmallPm == tv.plus.den <= 10000 /\ tv.pinv.den <= 10000 /\ tv.minus.den <= 10000
 PlusMinus == tv.op = "pm" => LET X == tv.a[1] IN
     Norm(Prod(Norm(Prod(X, tv.E)), tv.En)) = Norm(X)                                  \* (X + x) - x = X
 NegIsInv  == tv.op = "pm" =>
     /\ Norm(Prod(tv.E, tv.En)) = Norm(IdOf(tv.E)) /\ Norm(Prod(tv.En, tv.E)) = Norm(IdOf(tv.E))
-    /\ RMIsIdent(RMMul(Mat(tv.E), Mat(tv.En)))
+    /\ (SmallPm => RMIsIdent(RMMul(Mat(tv.E), Mat(tv.En))))
 PlusInv   == tv.op = "pm" => LET X == tv.a[1] IN
     /\ Norm(Inv(Norm(Prod(X, tv.E)))) = Norm(Prod(tv.En, Norm(Inv(X))))              \* (X + x)^-1 = exp(-x) X^-1
-    /\ RMIsIdent(RMMul(tv.plus, tv.pinv)) /\ RMIsIdent(RMMul(tv.pinv, tv.plus))
+    /\ (SmallPm => RMIsIdent(RMMul(tv.plus, tv.pinv)) /\ RMIsIdent(RMMul(tv.pinv, tv.plus)))
 PlusZero  == tv.op = "pm" => LET X == tv.a[1] IN
     /\ Norm(Prod(X, IdOf(X))) = Norm(X)
     /\ (tv.cell = "zero" => Norm(tv.E) = Norm(IdOf(X)) /\ RMEq(tv.plus, tv.mat) /\ RMEq(tv.minus, tv.mat))
 MatHom    == tv.op = "pm" => LET X == tv.a[1] IN
     /\ RMEq(Mat(Norm(Prod(X, tv.E))), tv.plus)                                        \* to_Matrix(X*Y) = to_Matrix(X) to_Matrix(Y)
     /\ RMEq(Mat(Norm(Prod(X, tv.En))), tv.minus)
-    /\ RMEq(RMMul(tv.plus, Mat(tv.En)), tv.mat)
+    /\ (SmallPm => RMEq(RMMul(tv.plus, Mat(tv.En)), tv.mat))
 EqLaw     == tv.op = "geq" => LET X == tv.a[1] Y == tv.a[2] IN
     /\ (tv.exp <=> ParEq(Y, X))                                                       \* symmetric
     /\ (X = Y => tv.exp)                                                              \* reflexive
@@ -296,6 +313,6 @@ AeqLaw    == tv.op = "aeq" =>
 AmatLaw   == tv.op = "amat" => LET sig == tv.sig x == tv.x IN
     /\ Len(tv.wedge) = Len(tv.wedge[1])
     /\ (Len(sig) = 1 => Vee(K0(sig[1]), tv.wedge) = x)                                        \* vee o wedge = id
-    /\ (Len(sig) = 1 => \A y \in AShort(sig) : MVec(tv.ad, y) = Bracket(K0(sig[1]), x, y))
+    /\ (Len(sig) = 1 => \A y \in YSet(x) : MVec(tv.ad, y) = Bracket(K0(sig[1]), x, y))
     /\ WedgeSig(sig, VAdd(x, x)) = MAdd(tv.wedge, tv.wedge)                                   \* wedge is linear
 =============================================================================
